@@ -18,6 +18,9 @@ template <typename T>
 T parseNumber(const char* s);
 
 class VariantData {
+#ifdef BBLANCHON_ARDUINOJSON_VERIF
+  friend struct ::ArduinoJsonVerifInspector;
+#endif
   VariantContent content_;  // must be first to allow cast from array to variant
   VariantType type_;
   SlotId next_;
